@@ -53,7 +53,21 @@ func (e *Exec) evCall(c *ast.CallExpr) Val {
 					pt = sig.Params().At(i).Type()
 				}
 			}
-			args = append(args, e.evConv(a, pt))
+			raw := e.ev(a)
+			at := e.typeOf(a)
+			if pt != nil && at != nil && kindOf(at) == kSlice {
+				if it, isIface := pt.Underlying().(*types.Interface); isIface && it.NumMethods() == 0 {
+					// a slice passed as `any`: extern specs bind the parameter to the slice itself
+					if e.rawArgs == nil {
+						e.rawArgs = map[*ast.CallExpr]map[int]boundVar{}
+					}
+					if e.rawArgs[c] == nil {
+						e.rawArgs[c] = map[int]boundVar{}
+					}
+					e.rawArgs[c][i] = boundVar{raw, at}
+				}
+			}
+			args = append(args, e.convAssign(raw, at, pt))
 		}
 		if f, ok := fv.(FuncV); ok && f.Fn != nil && f.Fn.Pkg() != nil && f.Fn.Name() == "FilterAddrs" &&
 			f.Fn.Pkg().Path() == "github.com/multiformats/go-multiaddr" && len(args) >= 1 && !c.Ellipsis.IsValid() {
@@ -507,7 +521,7 @@ func (e *Exec) conversion(c *ast.CallExpr, to types.Type) Val {
 			s, _ := v.(SliceV)
 			e.declareFun("str.of", []string{SInt, SInt, SInt, SArrI}, SInt)
 			key, sort := elemsKey(types.Typ[types.Byte])
-			r := sx("str.of", s.Base, s.Off, s.Len, mkSelect(e.heapGet(key, sort), s.Base))
+			r := e.nameTerm("str", sx("str.of", s.Base, s.Off, s.Len, mkSelect(e.heapGet(key, sort), s.Base)), SInt)
 			e.addFact(mkEq(sx("strlen", r), s.Len))
 			return iv(r)
 		}
@@ -714,6 +728,12 @@ func (e *Exec) builtinAppend(c *ast.CallExpr) Val {
 		base := e.allocRef("app")
 		h := e.heapGet(key, sort)
 		arr := e.fresh("apparr", sort[len("(Array Int "):len(sort)-1])
+		if !isIntLit(s.Len) && strings.HasPrefix(s.Len, "(") {
+			// name the length: it is used inside a quantifier pattern (no ite allowed there)
+			ln := e.fresh("applen", SInt)
+			e.addFact(mkEq(ln, s.Len))
+			s.Len = ln
+		}
 		n := SliceV{base, "0", mkAdd(s.Len, b.Len), mkAdd(s.Len, b.Len)}
 		e.addFact(fmt.Sprintf("(forall ((i Int)) (! (=> (and (<= 0 i) (< i %s)) (= (select %s i) (select (select %s %s) (+ %s i)))) :pattern ((select %s i))))",
 			s.Len, arr, h, s.Base, s.Off, arr))
@@ -1114,6 +1134,32 @@ func (e *Exec) havocPointerArgs(c *ast.CallExpr, args []Val) {
 		if kindOf(pt.Elem()) == kStruct {
 			e.warn("unspecified callee %s may write through pointer argument %d (%s): its fields are havoc'd", exprText(c.Fun), i, types.TypeString(pt.Elem(), nil))
 			e.addStructLocs(sv.T, pt.Elem(), add)
+		}
+	}
+	// slices handed over as interface values (sort.Slice(x, less), ...): the callee may permute / overwrite them
+	var idx []int
+	readOnly := false
+	if f, ok := e.calleeValue(c).(FuncV); ok && f.Fn != nil && f.Fn.Pkg() != nil {
+		switch f.Fn.Pkg().Path() {
+		case "fmt", "errors", "log", "log/slog", "strings", "bytes", "reflect", "encoding/json", "slices":
+			readOnly = true // formatting / inspection only
+		}
+	}
+	for i := range e.rawArgs[c] {
+		if !readOnly {
+			idx = append(idx, i)
+		}
+	}
+	sort.Ints(idx)
+	for _, i := range idx {
+		raw := e.rawArgs[c][i]
+		if sl, ok := raw.V.(SliceV); ok && sl.Base != "0" {
+			key, srt := elemsKey(elemType(raw.T))
+			if e.heapSort[key] == "" {
+				e.heapGet(key, srt)
+			}
+			e.warn("unspecified callee %s receives slice argument %d as an interface: its contents are havoc'd", exprText(c.Fun), i)
+			add(key, sl.Base)
 		}
 	}
 	if len(sets) > 0 {
